@@ -100,6 +100,17 @@ void *cgi_realloc(void *oldbuf, size_t bytes)
     return buf;
 }
 
+/* cgi_malloc for a size that comes from the file being read: that it cannot
+   be had is an error of the file, not a reason to end the process */
+static void *cgi_malloc_data(size_t cnt, size_t size)
+{
+    void *buf = calloc(cnt, size);
+    if (buf == NULL)
+        cgi_error("cannot allocate %zu values of size %zu for the data of a node", cnt, size);
+    return buf;
+}
+#define CGNS_NEW_DATA(type,size)  (type *)cgi_malloc_data((size_t)(size),sizeof(type))
+
 /* number of elements of an array with these dimensions; 0 when a dimension
    is not positive or the count (times the largest element size, 16 bytes)
    does not fit a cgsize_t -- the dimensions come from the file */
@@ -3490,7 +3501,8 @@ int cgi_read_ptset(double parent_id, cgns_ptset *ptset)
         }
         if (0 == strcmp(ptset->data_type,"I8")) {
             cglong_t total = 1;
-            cglong_t *pnts = CGNS_NEW(cglong_t, size);
+            cglong_t *pnts = CGNS_NEW_DATA(cglong_t, size);
+            if (pnts == NULL) return CG_ERROR;
             if (cgio_read_all_data_type(cg->cgio, ptset->id, ptset->data_type, pnts)) {
                 cg_io_error("cgio_read_all_data_type");
                 return CG_ERROR;
@@ -3512,7 +3524,8 @@ int cgi_read_ptset(double parent_id, cgns_ptset *ptset)
             ptset->size_of_patch = (cgsize_t)total;
         }
         else if (0 == strcmp(ptset->data_type,"I4")) {
-            int *pnts = CGNS_NEW(int, size);
+            int *pnts = CGNS_NEW_DATA(int, size);
+            if (pnts == NULL) return CG_ERROR;
             if (cgio_read_all_data_type(cg->cgio, ptset->id, ptset->data_type, pnts)) {
                 cg_io_error("cgio_read_all_data_type");
                 return CG_ERROR;
@@ -6791,18 +6804,19 @@ int cgi_read_node_data(double node_id, char_33 data_type,
         cgi_error("Error reading node data");
         return CG_ERROR;
     }
-    if (strcmp(data_type, "I4") == 0) data[0] = CGNS_NEW(int, size);
-    else if (strcmp(data_type, "I8") == 0) data[0] = CGNS_NEW(cglong_t, size);
-    else if (strcmp(data_type, "R4") == 0) data[0] = CGNS_NEW(float, size);
-    else if (strcmp(data_type, "R8") == 0) data[0] = CGNS_NEW(double, size);
-    else if (strcmp(data_type, "C1") == 0) data[0] = CGNS_NEW(char, size + 1);
-    else if (strcmp(data_type, "X4") == 0) data[0] = CGNS_NEW(float, 2 * size);
-    else if (strcmp(data_type, "X8") == 0) data[0] = CGNS_NEW(double, 2 * size);
+    if (strcmp(data_type, "I4") == 0) data[0] = CGNS_NEW_DATA(int, size);
+    else if (strcmp(data_type, "I8") == 0) data[0] = CGNS_NEW_DATA(cglong_t, size);
+    else if (strcmp(data_type, "R4") == 0) data[0] = CGNS_NEW_DATA(float, size);
+    else if (strcmp(data_type, "R8") == 0) data[0] = CGNS_NEW_DATA(double, size);
+    else if (strcmp(data_type, "C1") == 0) data[0] = CGNS_NEW_DATA(char, size + 1);
+    else if (strcmp(data_type, "X4") == 0) data[0] = CGNS_NEW_DATA(float, 2 * size);
+    else if (strcmp(data_type, "X8") == 0) data[0] = CGNS_NEW_DATA(double, 2 * size);
     else {
         /* nothing was allocated: data[0] is not ours to write to */
         cgi_error("Data type %s not supported for node data", data_type);
         return CG_ERROR;
     }
+    if (data[0] == NULL) return CG_ERROR;
 
     /* read data */
     if (cgio_read_all_data_type(cg->cgio, node_id, data_type, data[0])) {
@@ -6851,18 +6865,19 @@ int cgi_read_node(double node_id, char_33 name, char_33 data_type,
         cgi_error("Error reading node %s",name);
         return CG_ERROR;
     }
-    if (strcmp(data_type,"I4")==0) data[0]=CGNS_NEW(int, size);
-    else if (strcmp(data_type,"I8")==0) data[0]=CGNS_NEW(cglong_t, size);
-    else if (strcmp(data_type,"R4")==0) data[0]=CGNS_NEW(float, size);
-    else if (strcmp(data_type,"R8")==0) data[0]=CGNS_NEW(double, size);
-    else if (strcmp(data_type,"C1")==0) data[0]=CGNS_NEW(char, size+1);
-    else if (strcmp(data_type,"X4")==0) data[0]=CGNS_NEW(float, 2*size);
-    else if (strcmp(data_type,"X8")==0) data[0]=CGNS_NEW(double, 2*size);
+    if (strcmp(data_type,"I4")==0) data[0]=CGNS_NEW_DATA(int, size);
+    else if (strcmp(data_type,"I8")==0) data[0]=CGNS_NEW_DATA(cglong_t, size);
+    else if (strcmp(data_type,"R4")==0) data[0]=CGNS_NEW_DATA(float, size);
+    else if (strcmp(data_type,"R8")==0) data[0]=CGNS_NEW_DATA(double, size);
+    else if (strcmp(data_type,"C1")==0) data[0]=CGNS_NEW_DATA(char, size+1);
+    else if (strcmp(data_type,"X4")==0) data[0]=CGNS_NEW_DATA(float, 2*size);
+    else if (strcmp(data_type,"X8")==0) data[0]=CGNS_NEW_DATA(double, 2*size);
     else {
         /* nothing was allocated: data[0] is not ours to write to */
         cgi_error("Data type %s not supported for node %s", data_type, name);
         return CG_ERROR;
     }
+    if (data[0] == NULL) return CG_ERROR;
 
      /* read data */
     if (cgio_read_all_data_type(cg->cgio, node_id, data_type, data[0])) {
